@@ -401,7 +401,11 @@ def stream_surface_probe(ctx):
     for st, is_stream in want.items():
         item = SURFACE_ITEMS[(int(LET.index(st[1])) * 26 + LET.index(st[2])) // 2]
         m = re.search(r"def write_%s\(self, value: ([^\n]*)\) -> None:" % st, py)
-        seen = {"python": bool(m and m.group(1).startswith("collections.abc.Iterable[")),
+        if m is None and re.search(r"def write_%s\(self" % st, py) is not None:
+            ctx.report("stream-surface-unreadable:python", "the signature of write_%s in the generated Python protocols.py has a form the probe "
+                       "does not know" % st, {"step": st, "broken": "translator: stream-ness of a generated Python write method"}, no_input=True)
+            continue
+        seen = {"python": bool(m and "Iterable[" in m.group(1).split(",")[0]),
                 "c++": re.search(r"\bvoid End%s\(\);" % cap(st), hdr) is not None,
                 "matlab-writer": re.search(r"function end_%s\(self\)" % st, mw) is not None,
                 "matlab-reader": re.search(r"function more = has_%s\(self\)" % st, mr) is not None}
